@@ -75,6 +75,7 @@ Ab(c, ev) == AbM(c, ev, FALSE)
 Det(e) == e.k = "val"
 RECURSIVE ValOf(_)
 ValOf(e) == IF e.k = "val" THEN e.v
+            ELSE IF e.k = "errs" /\ Cardinality(e.cs) = 1 THEN Err(CHOOSE c \in e.cs : TRUE)     \* exactly one possible error: that error value
             ELSE IF e.k = "arr"
                  THEN LET vs == [i \in 1..Len(e.a) |-> ValOf(e.a[i])]
                       IN IF \E i \in 1..Len(vs) : IsUnspec(vs[i]) /\ e.a[i].k # "val" /\ e.a[i].k # "arr"
